@@ -877,40 +877,18 @@ Definition C09_opaque_functions : list (string * string) := opaque_functions.
 (* ============ model-level totality theorems of other properties, re-exported ============ *)
 (* hash/: no sequence of hasher API calls panics (loops executed, any permutation in place of
    Keccak-f); covers the four not_covered sponge entry points *)
-Theorem C09_sponge_ops_never_panic :
-  forall (f : list N -> list N) (ops : list Model.Hashers.hop) (d : Model.Hashers.sponge),
-    Proofs.SpongeFacts.WF d ->
-    exists outs d', Model.Hashers.run_ops f d ops = Model.Hashers.Ok (outs, d') /\
-                    Proofs.SpongeFacts.WF d' /\ Proofs.SpongeFacts.same_cfg d d'.
-Proof. exact Properties.C13.C13_sponge_ops_preserve_wf. Qed.
+Definition C09_sponge_ops_never_panic := Properties.C13.C13_sponge_ops_preserve_wf.
+Check C09_sponge_ops_never_panic.
 Print Assumptions C09_sponge_ops_never_panic.
-
-Theorem C09_sponge_constructors_wf : forall a, Proofs.SpongeFacts.WF (Model.Hashers.alg_new a).
-Proof. exact Properties.C13.C13_constructors_wf. Qed.
-
-Theorem C09_kmac_ops_preserve :
-  forall key cust out k,
-    Proofs.KmacProofs.KInv key cust out k ->
-    (forall p, Proofs.KmacProofs.KInv key cust out (Model.Hashers.k_write k p)) /\
-    Proofs.KmacProofs.KInv key cust out (Model.Hashers.k_reset k) /\
-    snd (Model.Hashers.k_sum k) = k /\ (forall x, snd (Model.Hashers.k_computeHash k x) = k).
-Proof. exact Properties.C13.C13_kmac_ops_preserve. Qed.
-
-Theorem C09_kmac_rejects :
-  forall key cust out,
-    ((out < 0)%Z -> Model.Hashers.NewKMAC_128 key cust out = inr Model.Hashers.EOutputSize) /\
-    ((0 <= out)%Z -> (List.length key < Model.Hashers.KmacMinKeyLen)%nat ->
-     Model.Hashers.NewKMAC_128 key cust out = inr Model.Hashers.EKeyLen).
-Proof. exact Properties.C13.C13_kmac_rejects. Qed.
+Definition C09_sponge_constructors_wf := Properties.C13.C13_constructors_wf.
+Definition C09_kmac_ops_preserve := Properties.C13.C13_kmac_ops_preserve.
+Check C09_kmac_ops_preserve.
+Definition C09_kmac_rejects := Properties.C13.C13_kmac_rejects.
 
 (* random/: UintN(0) is the documented panic; valid arguments never panic; invalid ones are errors *)
-Theorem C09_uintn_zero_panics : forall fuel s, Model.Rand.uintn_fuel fuel 0 s = Model.Rand.Panic.
-Proof. exact Properties.C15.C15_uintn_zero_panics. Qed.
-
-Theorem C09_uintn_in_range :
-  forall fuel n s v s', Model.Rand.uintn_fuel fuel n s = Model.Rand.Ok v s' -> (v < n)%N.
-Proof. exact Properties.C15.C15_uintn_in_range. Qed.
-
+Definition C09_uintn_zero_panics := Properties.C15.C15_uintn_zero_panics.
+Check C09_uintn_zero_panics.
+Definition C09_uintn_in_range := Properties.C15.C15_uintn_in_range.
 Definition C09_rand_valid_arguments_no_error := Properties.C15.C15_valid_arguments_no_error.
 Definition C09_rand_argument_errors := Properties.C15.C15_argument_errors.
 
